@@ -49,7 +49,13 @@ structure NTask where
   style : Option Str        -- network_bar_style rendered as k:v,k:v
   deriving Repr, Inhabited
 
-def nodeLabel (idText name : Str) : Str := idText ++ lit "{{" ++ name.filter (fun c => c != '"') ++ lit "}}"
+/-- `.replace('{', '#123;').replace('}', '#125;')`: braces written as Mermaid entity codes.  (The two replacements
+    commute with a single pass: neither replacement text contains a brace.) -/
+def escLabel (s : Str) : Str :=
+  s.flatMap (fun c => if c == '{' then lit "#123;" else if c == '}' then lit "#125;" else [c])
+
+/-- `<id>{{<label>}}`, label = `name.replace('"', '').replace('{', '#123;').replace('}', '#125;')` -/
+def nodeLabel (idText name : Str) : Str := idText ++ lit "{{" ++ escLabel (name.filter (fun c => c != '"')) ++ lit "}}"
 
 /-- `MermaidNetwork.__src()`; `all` = every task object a predecessor link can point to, `tasks` = indices of WBS.tasks -/
 def networkSrc (all : Nat → NTask) (tasks : List Nat) : Str :=
